@@ -73,11 +73,6 @@ def run(ctx):
     for r, k in zip(res, meta):
         e = parse_ex(r) if r else None
         if e: signed.append((e, k))
-    # property oracle (theorem C02.honest_verifies): what the library signed verifies inside the window and yields the original payload
-    hon = [(parse_ex(r), k, pl) for r, k, pl in zip(res, meta, plain) if r and parse_ex(r)]
-    hv = ctx.go([f'sxg.verify {exs(e)} {(date + expires) // 2} 0 . {hexs(certurl)}:{k["chain"]} . . .' for e, k, pl in hon])
-    for (e, k, pl), g_ in zip(hon, hv):
-        ctx.records.append((f'c02.honest-verifies {exs(e)}', g_, f'valid {pl}'))
     if len(signed) < len(unsigned) * 0.9:
         ctx.infra.append(f'sxg.sign failed for {len(unsigned) - len(signed)} of {len(unsigned)} exchanges: {res[:2]}')
     # 2. write (compared)
